@@ -72,6 +72,15 @@ def _needs_quote(name: str) -> bool:
 _ELLIPSIS = object()
 
 
+class _Dots(str):
+	"""The text '...' as a distinct object."""
+
+
+# Marker for the elided middle columns among the display names: recognised by identity,
+# so that a column really named '...' is shown (quoted) like any other name
+_COL_DOTS = _Dots("...")
+
+
 def _format_column(col, max_rows: int | None = None) -> List[str]:
 	"""Returns a list of strings representing that column, truncated for display.
 
@@ -203,13 +212,13 @@ def _header_rows(display_names, sanitized_names, dtypes):
 	Returns (header_rows, show_types_in_header) where show_types_in_header indicates
 	whether types are heterogeneous and should be shown in header instead of footer.
 	"""
-	any_display = any(n for n in display_names if n != "...")
+	any_display = any(n for n in display_names if n is not _COL_DOTS)
 	
 	# Only show dot-access row if there's a structural change, not just case
 	any_structural_change = any(
 		_is_structural_change(disp, san)
 		for disp, san in zip(display_names, sanitized_names)
-		if disp != "..." and san != "..."
+		if disp is not _COL_DOTS
 	)
 
 	# Check if types are homogeneous (excluding "...")
@@ -222,7 +231,7 @@ def _header_rows(display_names, sanitized_names, dtypes):
 	if any_display:
 		row = []
 		for name in display_names:
-			if name == "...":
+			if name is _COL_DOTS:
 				row.append("...")
 			elif _needs_quote(name):
 				row.append(repr(name))
@@ -382,7 +391,7 @@ def _repr_table(tbl) -> str:
 	if truncated:
 		ellipsis_col = ["..." for _ in range(len(formatted_cols[0]))]
 		formatted_cols.insert(MAX_HEAD_COLS, ellipsis_col)
-		disp.insert(MAX_HEAD_COLS, "...")
+		disp.insert(MAX_HEAD_COLS, _COL_DOTS)
 		san.insert(MAX_HEAD_COLS, "...")
 		dtypes_displayed.insert(MAX_HEAD_COLS, "...")
 
